@@ -140,6 +140,46 @@ impl Block {
 
 pub type GetCleanBlockHandle = Shared<BoxFuture<'static, Block>>;
 
+/// Verification hook (feature `verif`, add-only): a log of the block manager's state transitions, recorded under
+/// the state lock, for the external correspondence harness.
+#[cfg(feature = "verif")]
+pub mod verif_events {
+    use std::sync::Mutex;
+
+    /// (event, block, clean, evictable, writing, reclaiming, waiters) — the counts are taken after the transition.
+    pub type Event = (&'static str, u32, usize, usize, usize, usize, usize);
+
+    static EVENTS: Mutex<Vec<Event>> = Mutex::new(Vec::new());
+
+    pub fn record(event: Event) {
+        EVENTS.lock().unwrap().push(event);
+    }
+
+    /// Drain the log.
+    pub fn take() -> Vec<Event> {
+        std::mem::take(&mut *EVENTS.lock().unwrap())
+    }
+}
+
+#[cfg(feature = "verif")]
+macro_rules! verif_event {
+    ($state:expr, $event:expr, $block:expr) => {
+        verif_events::record((
+            $event,
+            $block,
+            $state.clean_blocks.len(),
+            $state.evictable_blocks.len(),
+            $state.writing_blocks.len(),
+            $state.reclaiming_blocks.len(),
+            $state.clean_block_waiters.len(),
+        ))
+    };
+}
+#[cfg(not(feature = "verif"))]
+macro_rules! verif_event {
+    ($state:expr, $event:expr, $block:expr) => {};
+}
+
 #[derive(Debug)]
 struct State {
     clean_blocks: VecDeque<BlockId>,
@@ -243,8 +283,10 @@ impl BlockManager {
         let mut pickers = std::mem::take(&mut state.eviction_pickers);
 
         // Notify pickers.
+        verif_event!(state, "init", 0);
         for block in evictable_blocks {
             state.evictable_blocks.insert(block);
+            verif_event!(state, "init-evictable", block);
             for picker in pickers.iter_mut() {
                 picker.on_block_evictable(
                     EvictionInfo {
@@ -296,11 +338,13 @@ impl BlockManager {
                     state.writing_blocks.insert(id);
                     this.inner.metrics.storage_block_engine_block_clean.decrease(1);
                     this.inner.metrics.storage_block_engine_block_writing.increase(1);
+                    verif_event!(state, "take", id);
                     this.reclaim_if_needed(&mut state);
                     return block;
                 } else {
                     let (tx, rx) = oneshot::channel();
                     state.clean_block_waiters.push(tx);
+                    verif_event!(state, "wait", 0);
                     drop(state);
                     rx
                 }
@@ -317,6 +361,7 @@ impl BlockManager {
         self.inner.metrics.storage_block_engine_block_writing.decrease(1);
         let inserted = state.evictable_blocks.insert(block.id());
         self.inner.metrics.storage_block_engine_block_evictable.increase(1);
+        verif_event!(state, "finish", block.id());
 
         assert!(inserted);
 
@@ -354,10 +399,12 @@ impl BlockManager {
         self.inner.metrics.storage_block_engine_block_reclaiming.decrease(1);
         if let Some(waiter) = state.clean_block_waiters.pop() {
             self.inner.metrics.storage_block_engine_block_writing.increase(1);
+            verif_event!(state, "reclaimed-handover", block.id());
             let _ = waiter.send(block);
         } else {
             self.inner.metrics.storage_block_engine_block_clean.increase(1);
             state.clean_blocks.push_back(block.id());
+            verif_event!(state, "reclaimed", block.id());
         }
         self.reclaim_if_needed(&mut state);
         if state.reclaiming_blocks.is_empty() {
@@ -374,6 +421,7 @@ impl BlockManager {
         {
             state.reclaiming_blocks.insert(block.id());
             self.inner.metrics.storage_block_engine_block_reclaiming.increase(1);
+            verif_event!(state, "pick", block.id());
             let block = ReclaimingBlock {
                 block_manager: self.clone(),
                 block,
